@@ -148,6 +148,22 @@ def check_property(prop: str, tier: str, seed: int) -> int:
     violations: list[dict] = []
     undecided: list[str] = []
     crashes: list[str] = []
+    # guard: every rule of kind "lemma" that function VCs may fire must be proved by a Lemma of the same name in one of this property's areas
+    lemma_names: set[str] = set()
+    lemma_rules: dict[str, str] = {}
+    for a in spec.get("areas", []):
+        _w, _lib, _reg, _lems = _area(a)
+        lemma_names |= {l.name for l in _lems}
+        for _f in _lib.fns.values():
+            for _r in _f.rules:
+                if _r.kind == "lemma":
+                    lemma_rules.setdefault(_r.name, a)
+        for _ex in _lib.extra_instantiators:
+            for _n in getattr(_ex, "encodes", ()) or ():
+                lemma_rules.setdefault(_n, a)
+    for _n, _a in sorted(lemma_rules.items()):
+        if _n not in lemma_names:
+            undecided.append(f"{_a}: rule '{_n}' is used as a lemma but no lemma of that name is proved in the areas of {prop}")
     n_ob = n_dis = 0
     by_backend: dict[str, int] = {}
     solver_s = 0.0
